@@ -66,6 +66,14 @@ func one(e *Emitter, from, to uint64, s *vkit.Stats, count bool) (err error) {
 		if err := e.Judge(code2, from2, to2); err != nil {
 			return fmt.Errorf("emitter %s from=%#x to=%#x emitted % x: %v", e.Name, from2, to2, code2, err)
 		}
+		// every 16th pair: a hundred more sequences are emitted (and dropped) in between, as a process that patches many
+		// functions does before it re-applies an early guard
+		if (from^to)&15 == 3 {
+			for i := uint64(1); i <= 100; i++ {
+				_ = e.Emit(from2+i*64, to2+i*4099)
+			}
+			s.Class("pair/re-judged-after-100-later-emissions")
+		}
 		if err := e.Judge(code, from, to); err != nil {
 			return fmt.Errorf("emitter %s from=%#x to=%#x: after another sequence (to=%#x) was emitted the first reads % x: %v", e.Name, from, to, to2, code, err)
 		}
